@@ -161,6 +161,39 @@ def gen(rng):
     return {"A": A, "b": b, "c": c, "ints": ints, "cv": cv, "ub": ub, "configs": configs, "floats": rng.random() < 0.5}
 
 
+def gen_pairrows(rng):
+    """binaries with explicit x_j <= 1 rows (so bounds are tightened and up-branches FIX variables at 1), rows that involve only
+    two of the integer variables with a fractional LP optimum, and at least one more variable that stays free meanwhile"""
+    ni = rng.randint(3, 4)
+    cont = rng.random() < 0.3
+    n = ni + (1 if cont else 0)
+    rows, rhs = [], []
+    for _ in range(rng.randint(1, 2)):
+        i, j = rng.sample(range(ni), 2)
+        row = [0] * n
+        row[i], row[j] = rng.randint(1, 3), rng.randint(1, 3)
+        rows.append(row)
+        rhs.append(rng.randint(1, row[i] + row[j] - 1))
+    if rng.random() < 0.5:
+        rows.append([rng.randint(0, 3) for _ in range(n)])
+        rhs.append(rng.randint(2, 6))
+    ub = [1] * ni + ([rng.randint(1, 3)] if cont else [])
+    for j in range(n):
+        row = [0] * n
+        row[j] = 1
+        rows.append(row)
+        rhs.append(ub[j])
+    order = list(range(len(rows)))
+    rng.shuffle(order)
+    c = [rng.randint(1, 6) for _ in range(n)]
+    cfgs = []
+    for minimize in (False, True):
+        cfgs += [{"minimize": minimize}, {"minimize": minimize, "heuristics": False}, {"minimize": minimize, "solution_limit": 2}]
+    cc = c if rng.random() < 0.8 else [-v for v in c]
+    return {"A": [rows[i] for i in order], "b": [rhs[i] for i in order], "c": cc, "ints": list(range(1, ni + 1)), "cv": n if cont else 0,
+            "ub": ub, "configs": cfgs, "floats": rng.random() < 0.5}
+
+
 def gen_nearmiss(rng):
     """two or three integer variables plus one continuous one; every integer variable has a row that looks like x_j <= 1
     (rhs 1, coefficient +1) but also involves the continuous variable; real upper bounds are larger"""
